@@ -257,9 +257,95 @@ def _s1_all_steps(program, res):
             raise AnalysisError(f"{cname}: only {n} step methods found")
 
 
+def _s3_repeatable_grouping(program, res):
+    """Polars' group_by returns the groups in an arbitrary order that changes from call to call unless maintain_order=True.  Where the grouped
+    frame becomes (part of) a step's result, that order is visible: to the caller, and to every later step that reads positions
+    (first/last, a bare limit).  Groupings reduced to one number (a count, a maximum) are exempt."""
+    cls = program.cls("polars_model", "PolarsModel")
+    n = 0
+    parents = {}
+    for m in cls.methods.values():
+        for p_ in ast.walk(m.node):
+            for c_ in ast.iter_child_nodes(p_):
+                parents[c_] = p_
+        for c in ast.walk(m.node):
+            if not (isinstance(c, ast.Call) and isinstance(c.func, ast.Attribute) and c.func.attr == "group_by"):
+                continue
+            # climb the method chain this call starts
+            top = c
+            chain = []
+            while isinstance(parents.get(top), ast.Attribute) and isinstance(parents.get(parents[top]), (ast.Call, ast.Subscript)) or \
+                    isinstance(parents.get(top), ast.Subscript) and parents[top].value is top:
+                if isinstance(parents[top], ast.Attribute):
+                    chain.append(parents[top].attr)
+                    top = parents[parents[top]]
+                else:
+                    chain.append("[]")
+                    top = parents[top]
+            if isinstance(parents.get(top), ast.Attribute):
+                chain.append(parents[top].attr)
+            scalar = any(x in ("shape", "max", "min", "height", "n_unique", "item") for x in chain)
+            if scalar:
+                res.ok("C19-S3", f"{m.name}: grouping reduced to a number ({'.'.join(chain)}): group order is not observable")
+                continue
+            n += 1
+            kept = any(kw.arg == "maintain_order" and isinstance(kw.value, ast.Constant) and kw.value.value is True for kw in c.keywords)
+            if kept:
+                res.ok("C19-S3", f"{m.name}: group_by(..., maintain_order=True): groups come out in the order of their first rows, every time")
+            else:
+                res.fail_at("C19-S3", m, f"polars-group-order-arbitrary:{m.name}",
+                            f"PolarsModel.{m.name} builds its result with `{unparse(c)[:60]}` (maintain_order left False): the rows come back in another order on every "
+                            f"evaluation — 40 evaluations of project({{'x': 'x.sum()'}}, group_by=['g']) gave 40 row orders, and a following order-reading step "
+                            f"(extend first()/last() over partition_by=1, order_rows(limit=1) with ties) gave different *values*; Pandas returns one order", c)
+    if n < 1:
+        raise AnalysisError("C19-S3: no result-producing group_by found in PolarsModel")
+    # the same for sorting: Polars' sort is not stable unless maintain_order=True, so rows that tie on the sort columns change places
+    # between evaluations.  (The record transforms sort frames that were checked to be keyed by the sort columns: no ties, exempt.)
+    ns = 0
+    for mname in ("_order_rows_step", "_extend_step"):
+        m = cls.methods.get(mname)
+        if m is None:
+            raise AnalysisError(f"anchor vanished: PolarsModel.{mname}")
+        for c in ast.walk(m.node):
+            if isinstance(c, ast.Call) and isinstance(c.func, ast.Attribute) and c.func.attr == "sort":
+                ns += 1
+                kept = any(kw.arg == "maintain_order" and isinstance(kw.value, ast.Constant) and kw.value.value is True for kw in c.keywords)
+                if kept:
+                    res.ok("C19-S3", f"{mname}: sort(..., maintain_order=True): ties keep their incoming order, every time")
+                else:
+                    res.fail_at("C19-S3", m, f"polars-sort-unstable:{mname}",
+                                f"PolarsModel.{mname} sorts with `{unparse(c)[:70]}` (maintain_order left False): rows that tie on the sort columns come back in another "
+                                f"order on every evaluation — order_rows(['c'], limit=1) over eight rows with equal c returned eight different rows in 40 evaluations", c)
+    if ns < 2:
+        raise AnalysisError("C19-S3: the sorts of _order_rows_step / _extend_step were not found")
+    # joins: Polars keeps the left frame's order for left / inner joins; a full join appends the right-only rows in hash order unless
+    # maintain_order is given.  The join whose `how` is not a literal "left"/"inner" can be the full join.
+    jm = cls.methods.get("_natural_join_step")
+    if jm is None:
+        raise AnalysisError("anchor vanished: PolarsModel._natural_join_step")
+    nj = 0
+    for c in ast.walk(jm.node):
+        if isinstance(c, ast.Call) and isinstance(c.func, ast.Attribute) and c.func.attr == "join":
+            how = next((kw.value for kw in c.keywords if kw.arg == "how"), None)
+            if isinstance(how, ast.Constant) and how.value in ("left", "inner", "semi", "anti"):
+                res.ok("C19-S3", f"_natural_join_step: join(how={how.value!r}) keeps the order of its left operand")
+                continue
+            nj += 1
+            if any(kw.arg == "maintain_order" for kw in c.keywords):
+                res.ok("C19-S3", "_natural_join_step: the general join states the row order it maintains")
+            else:
+                res.fail_at("C19-S3", jm, "polars-full-join-order-arbitrary",
+                            f"`{unparse(c.func)}(…, how={unparse(how) if how is not None else None})` can be a full join and passes no maintain_order: the right-only rows "
+                            f"come back in another order on every evaluation", c)
+    if nj < 1:
+        raise AnalysisError("C19-S3: the general join of _natural_join_step was not found")
+
+
 def run(program, res, tier):
     res.rule("C19-S1", "no in-place effect reaches a caller-owned frame; table steps return fresh frames")
     res.rule("C19-S2", "evaluation and SQL generation never mutate the operator nodes")
     _s1(program, res)
     _s1_all_steps(program, res)
     _s2(program, res)
+    res.rule("C19-S3", "repeatable: result-producing Polars groupings keep a deterministic order")
+    _s3_repeatable_grouping(program, res)
